@@ -675,6 +675,40 @@ def structured(fn):
     return new, why
 
 
+def exec_order(fn, a, b):
+    """order in which two nodes of `fn` are executed, decided from the STRUCTURE of the tree (statement lists), never from line numbers:
+    statements written back in place by the normaliser all carry the position of the call they replace.
+    -> (verdict, stmt_a, stmt_b): verdict True = a is executed before b in every pass through the statement list that holds both, False =
+    after, None = not decided by the structure (different arms of a branch, the same statement, a node not found); stmt_a / stmt_b are the
+    elements of the common statement list that contain a / b (stmt_a is a itself when a is an unconditional statement of that list)."""
+    def path(target):
+        out = []
+
+        def rec(node):
+            if node is target:
+                return True
+            for field, value in ast.iter_fields(node):
+                items = value if isinstance(value, list) else [value]
+                for k, ch in enumerate(items):
+                    if isinstance(ch, ast.AST):
+                        out.append((node, field, k, ch, isinstance(value, list)))
+                        if rec(ch):
+                            return True
+                        out.pop()
+            return False
+        return out if rec(fn) else None
+    pa, pb = path(a), path(b)
+    if pa is None or pb is None:
+        return None, None, None
+    for (na, fa, ka, ca, la), (nb, fb, kb, cb, lb) in zip(pa, pb):
+        if ca is cb:
+            continue
+        if na is nb and fa == fb and la and isinstance(ca, ast.stmt) and isinstance(cb, ast.stmt):
+            return ka < kb, ca, cb
+        return None, None, None
+    return None, None, None
+
+
 def class_chain(chk, rel, cls):
     """the class and its base classes defined in the same module, most derived first"""
     mod = chk.mod(rel)
@@ -1304,6 +1338,140 @@ def gradient_out_param(chk):
                          "whether it equals the content of the table row is not decided")
     chk.ob("E2-gradient-out-param", node, f"parallel_gradient leaves its result in `{o}`", ok, why,
            file=U.ADV, func="ParallelGradient.parallel_gradient")
+    table_kept_after_use(chk, gs, calls[0], b[o])
+
+
+_VALUE_CHANGING = {"abs", "absolute", "fabs", "negative", "square", "sqrt", "exp", "log", "sign", "reciprocal", "add", "subtract", "multiply",
+                   "divide", "true_divide", "power", "floor", "ceil", "rint", "trunc"}
+
+
+def table_kept_after_use(chk, gs, producer, row):
+    """state carried between calls: gridStepKeepGradient advects with what gridStep LEFT in the gradient table.  gridStep advects its
+    own lines with the rows the producer call filled; a statement that changes these rows in place AFTER the lines were advected makes
+    the later gridStepKeepGradient advect with another speed than gridStep did.
+    VIOLATED assumptions (each checked, else UNDECIDED): (a) the statement is executed after the step call that reads the table (order
+    read from the statement lists, C05.exec_order); (b) the place written is the table or a VIEW of it (a subscript of the table whose
+    components are slices, integer constants or counters of the enclosing for loops, bound to a local that is assigned once);
+    (c) the operation writes in place (subscript store, augmented assignment on a view, `out=` of a numpy function, .fill/.sort) and
+    (d) changes the values (known value-changing ufunc / augmented operator with a non-neutral operand)."""
+    q = "VParallelAdvection.gridStep"
+    tab = src(row.value) if isinstance(row, ast.Subscript) else src(row)
+    label = f"`{tab}` is not modified after the lines were advected with it (read again by gridStepKeepGradient)"
+    def base(e):
+        while isinstance(e, ast.Subscript):
+            e = e.value
+        return e.id if isinstance(e, ast.Name) else None
+    loop_vars = {x.id for lp in ast.walk(gs) if isinstance(lp, ast.For) for x in ast.walk(lp.target) if isinstance(x, ast.Name)}
+    stores = {}
+    for n in ast.walk(gs):
+        if isinstance(n, (ast.Assign, ast.AugAssign, ast.AnnAssign, ast.For, ast.NamedExpr)):
+            ts = n.targets if isinstance(n, ast.Assign) else [n.target]
+            for t in ts:
+                for x in ast.walk(t):
+                    if isinstance(x, ast.Name) and isinstance(x.ctx, ast.Store):
+                        stores.setdefault(x.id, []).append(n)
+
+    def basic_index(e):
+        """every subscript step from the base name to `e` selects with slices, integer constants or counters of for loops"""
+        while isinstance(e, ast.Subscript):
+            comps = e.slice.elts if isinstance(e.slice, ast.Tuple) else [e.slice]
+            for c_ in comps:
+                if isinstance(c_, ast.Slice) or (isinstance(c_, ast.Constant) and (isinstance(c_.value, int) or c_.value is Ellipsis)):
+                    continue
+                if isinstance(c_, ast.Name) and c_.id in loop_vars and len(stores.get(c_.id, [])) == 1:
+                    continue
+                return False
+            e = e.value
+        return True
+    # views of the table (transitively): name -> defining statement; unknown_alias = a local made from the table in a way not known to
+    # be a view (index arrays / masks copy; a name assigned more than once)
+    views, unknown_alias = {}, {}
+    changed = True
+    while changed:
+        changed = False
+        for name, sts in stores.items():
+            if name in views or name in unknown_alias:
+                continue
+            for st in sts:
+                if isinstance(st, ast.Assign) and len(st.targets) == 1 and isinstance(st.targets[0], ast.Name):
+                    v = st.value
+                    bv = base(v) if isinstance(v, (ast.Subscript, ast.Name)) else None
+                    if bv is not None and bv != name and (bv == tab or bv in views or bv in unknown_alias):
+                        if len(sts) == 1 and basic_index(v) and bv not in unknown_alias:
+                            views[name] = st
+                        else:
+                            unknown_alias[name] = st
+                        changed = True
+                        break
+    related = {tab} | set(views) | set(unknown_alias)
+    users = [c for c in ast.walk(gs) if isinstance(c, ast.Call) and c is not producer and isinstance(c.func, ast.Attribute)
+             and src(c.func.value) == "self" and any(isinstance(x, ast.Name) and x.id in related for a in list(c.args) + [k.value for k in c.keywords]
+                                                     for x in ast.walk(a))]
+    if not users:
+        chk.ob("E2-gradient-table-kept", producer, label, None, f"no call on self reads `{tab}` (or a view of it) in gridStep: the statement that "
+               "uses the table is not identified", file=U.ADV, func=q)
+        return
+    use = users[0]
+
+    def after_use(n):
+        vs = [exec_order(gs, u, n)[0] for u in users]
+        return True if any(v is True for v in vs) else (None if any(v is None for v in vs) else False)
+    found, unsure = [], []
+    for n in ast.walk(gs):
+        target = what = changing = None
+        if isinstance(n, (ast.Assign, ast.AugAssign)):
+            for t in (n.targets if isinstance(n, ast.Assign) else [n.target]):
+                bt = base(t)
+                if isinstance(t, ast.Subscript) and (bt == tab or bt in views or bt in unknown_alias):
+                    target, what = t, f"`{src(n)[:80]}` stores into `{src(t)[:40]}`"
+                    changing = None
+                    if isinstance(n, ast.AugAssign):
+                        neutral = isinstance(n.value, ast.Constant) and n.value.value in ((1,) if isinstance(n.op, (ast.Mult, ast.Div, ast.Pow)) else (0,))
+                        changing = True if not neutral and isinstance(n.value, (ast.Constant, ast.Name, ast.Attribute, ast.BinOp)) else None
+                elif isinstance(n, ast.AugAssign) and isinstance(t, ast.Name) and (t.id in views or t.id in unknown_alias):
+                    target, what = t, f"`{src(n)[:80]}` updates the view `{t.id}` in place"
+                    neutral = isinstance(n.value, ast.Constant) and n.value.value in ((1,) if isinstance(n.op, (ast.Mult, ast.Div, ast.Pow)) else (0,))
+                    # `name op= v` updates in place only when the name holds an ARRAY (a scalar element is re-bound): established when a
+                    # slice occurs in the subscripts that define the view
+                    dv = views[t.id].value if t.id in views else None
+                    arrayish = dv is not None and any(isinstance(x, ast.Slice) for x in ast.walk(dv))
+                    changing = True if not neutral and arrayish else None
+        elif isinstance(n, ast.Call) and n is not producer:
+            outs = [k.value for k in n.keywords if k.arg == "out"]
+            if outs and (base(outs[0]) == tab or base(outs[0]) in views or base(outs[0]) in unknown_alias):
+                fname = src(n.func).split(".")[-1]
+                target, what = outs[0], f"`{src(n)[:80]}` writes its result into `{src(outs[0])[:40]}`"
+                same_in = len(n.args) >= 1 and src(n.args[0]) == src(outs[0])
+                changing = True if fname in _VALUE_CHANGING and isinstance(n.func, ast.Attribute) and src(n.func.value) in ("np", "numpy") \
+                    and (same_in or len(n.args) == 2) else None
+            elif isinstance(n.func, ast.Attribute) and n.func.attr in ("fill", "sort", "partition", "put", "itemset", "resize") and \
+                    (base(n.func.value) == tab or base(n.func.value) in views or base(n.func.value) in unknown_alias):
+                target, what, changing = n.func.value, f"`{src(n)[:80]}` changes `{src(n.func.value)[:40]}` in place", None
+        if target is None:
+            continue
+        after = after_use(n)
+        bt = base(target)
+        if after is None:
+            unsure.append((n, f"{what}; its order against `{src(use)[:40]}...` is not decided by the statement structure"))
+        elif after is True:
+            if bt in unknown_alias:
+                unsure.append((n, f"{what}; whether `{bt}` is a view of the table or a copy is not established"))
+            elif changing:
+                found.append((n, what))
+            else:
+                unsure.append((n, f"{what} after the lines were advected; whether the stored values change is not established"))
+    if found:
+        n, what = found[0]
+        chk.ob("E2-gradient-table-kept", n, label, False,
+               f"{what} after the lines of this radius were advected with the signed gradient: the table gridStepKeepGradient reads later holds "
+               "other values than the ones gridStep advected with (state carried between the two calls of the time step), so the second "
+               "v-parallel step of the splitting advects with another speed", file=U.ADV, func=q)
+    elif unsure:
+        chk.ob("E2-gradient-table-kept", unsure[0][0], label, None, unsure[0][1], file=U.ADV, func=q)
+    else:
+        chk.ob("E2-gradient-table-kept", use, label, True,
+               "no statement of gridStep stores into the table, a view of it or an `out=` argument made from it after the step calls that "
+               "read it", file=U.ADV, func=q)
 
 
 def row_always_written(chk, gs, call, unstructured):
@@ -1891,8 +2059,10 @@ def poloidal(chk):
     # writer (gridStep) and reader (gridStep_SplinesUnchanged) of the cache use the same index space
     tags = {(m, I.tname(t) if t else "?") for m, lst in cache_tags.items() for _, t in lst}
     kinds = {t for _, t in tags}
+    # 'not typed' is recognised on the VALUE (tag "other": OTHER and the engine's UNK for unmodelled constructs), not on its printed text
+    untyped = any((not t) or (isinstance(t, tuple) and t and t[0] == "other") for lst in cache_tags.values() for _, t in lst)
     node = cache_tags.get("gridStep_SplinesUnchanged", [(None, None)])[0][0] or chk.func(U.ADV, "PoloidalAdvection.gridStep")
-    if len(cache_tags) == 2 and "?" not in kinds and "('other',)" not in kinds:
+    if len(cache_tags) == 2 and not untyped:
         # VIOLATED-soundness: relational (writer vs reader of the cache); decided only when every subscript of the cache in both methods was
         # typed by engine C ('?' / other -> UNDECIDED branch below)
         ok = len(kinds) == 1
